@@ -7,6 +7,11 @@ from harness import wsgen, wsrun, wsoracle
 
 PROP = "C16"
 PROOF_MODULES = ["Abverif.Proofs.C16"]
+MANIFEST_ENTRY = {
+    "technique": 'Lean 4 theorems about the limit checks (at-header failure, send refusal writes nothing, transparency below the limit) + correspondence with header-only delivery + zlib-peer oracle for the decompression cap',
+    "text": 'Proved on the model: an over-limit sendMessage raises and changes nothing else; the receive limits are evaluated in onMessageFrameBegin on the declared length, i.e. at the header and before any payload octet of that frame is buffered, failing with 1009 per fail policy; within limits the check is pure bookkeeping; after a failure nothing is buffered or delivered. Tied to the code by per-read comparison incl. header-only delivery (payload withheld) and by the Spec judge (1009 exactly when a declared length crosses a limit). The decompression cap and refused compressed sends are outside the model: implementation-level oracle with an independent zlib peer (three known findings).',
+    "note": 'Trusted: Lean kernel; model tied by differential execution; limits are in declared (wire) payload octets; zlib.',
+}
 TRUSTED = [
     "Lean 4.33 kernel; axioms of every theorem within {propext, Classical.choice, Quot.sound}",
     "model Abverif/Model/Ws.lean (onMessageFrameBegin limit checks on declared lengths, sendMessage refusal) tied to the code by the "
